@@ -167,7 +167,7 @@ CLAIMED = {
                 "declaratively), C15_last (single-valued look-up = last effective assignment, none after an empty last one), C15_kv (name=value look-up = last value per name among the "
                 "words of the effective assignments), C15_dropins (merging a drop-in appends its history); all for arbitrary unbounded histories. The command-level clause is decided by a "
                 "metamorphic oracle on the implementation (command for a history == command for its effective history; in-process and end to end with real drop-in files), not yet by a theorem "
-                "over a converter model: partial in that respect.",
+                "over a converter model: partial in that respect. WITH DROP-INS: C15_merged_history and C15_rules_with_dropins (on the unit the run converts -- main file merged with its drop-ins -- each of the three reading rules is applied to the history over the main file followed by the drop-ins in merge order).",
         "note": "Trusted: Coq kernel; Spec/Effective.v; extraction; driver; the model of ordered-multimap semantics in Model/Unit.v (validated by differential runs).",
         "technique": "machine-checked proof in Rocq (Coq 8.16) of the look-up folds + differential correspondence and metamorphic conversion oracle",
         "design": "DESIGN.md §7 C15",
